@@ -19,18 +19,21 @@ func paHex() string {
 }
 
 type chainGen struct {
-	w     io.Writer
-	r     *hx.Rng
-	ts    int64
-	seq   int
-	empty map[uint64]bool
-	n     uint64 // number of blocks produced (heights ih .. ih+n-1)
-	ih    uint64
+	w      io.Writer
+	r      *hx.Rng
+	ts     int64
+	seq    int
+	empty  map[uint64]bool
+	n      uint64 // number of blocks produced (heights ih .. ih+n-1)
+	ih     uint64
+	resets int
 }
 
 func (g *chainGen) reset(ih uint64) {
 	g.ih, g.n, g.ts, g.empty = ih, 0, baseTime, map[uint64]bool{}
-	fmt.Fprintf(g.w, "reset ih=%d gt=%d pa=%s\n", ih, baseTime, paHex())
+	g.resets++
+	// every other scenario runs with a non-default signature payload provider
+	fmt.Fprintf(g.w, "reset ih=%d gt=%d pa=%s cp=%d\n", ih, baseTime, paHex(), g.resets%2)
 	// the first production step commits the genesis block (always empty, no batch consumed)
 	g.produceRaw(nil)
 }
